@@ -355,6 +355,35 @@ func (c *FCase) bytes() []byte {
 					b[q] = []byte{0, 1, 2, 3, 23, 24, 0x7f, 0x80, 0xfe, 0xff}[m.V%10]
 				}
 			}
+		case "widen": // a one-byte unsigned integer becomes an 8-byte one with an extreme value (index / count fields)
+			var at []int
+			for j := 2; j < len(b); j++ {
+				small := b[j] <= 0x17
+				if m.V%2 == 0 {
+					// only right after a type-info reference tag (d8 f6) or a one-byte uint head (18)
+					if j >= 2 && b[j-2] == 0xd8 && b[j-1] == 0xf6 && small {
+						at = append(at, j)
+					}
+				} else if small || (b[j] == 0x18 && j+1 < len(b)) {
+					at = append(at, j)
+				}
+			}
+			if len(at) > 0 {
+				q := at[m.P%len(at)]
+				ext := [][8]byte{{0x80}, {0xff, 0xff, 0xff, 0xff, 0xff, 0xff, 0xff, 0xff}, {0, 0, 0, 1}, {0, 0, 0, 0, 0x80}, {0x7f, 0xff, 0xff, 0xff, 0xff, 0xff, 0xff, 0xff}}
+				x := ext[(m.V/2)%len(ext)]
+				skip := 1
+				if b[q] == 0x18 {
+					skip = 2
+				}
+				nb := append([]byte(nil), b[:q]...)
+				nb = append(nb, 0x1b)
+				nb = append(nb, x[:]...)
+				if q+skip <= len(b) {
+					nb = append(nb, b[q+skip:]...)
+				}
+				b = nb
+			}
 		case "bump2": // two small counts / array heads incremented together (coordinated length fields)
 			var at []int
 			for j := 2; j < len(b); j++ {
@@ -448,7 +477,7 @@ var c19Stats struct {
 }
 
 func init() {
-	kinds := []string{"trunc", "flip", "flip", "set", "set", "splice", "ins", "dup", "head", "head", "len", "idx", "idx", "tag", "cmap", "bump2"}
+	kinds := []string{"trunc", "flip", "flip", "set", "set", "splice", "ins", "dup", "head", "head", "len", "idx", "idx", "tag", "cmap", "bump2", "widen"}
 	register(&PropDef{
 		ID:  "C19",
 		New: func() any { return &FCase{} },
@@ -459,7 +488,7 @@ func init() {
 			for i := 0; i < n; i++ {
 				m := FMut{K: rapid.SampledFrom(kinds).Draw(t, "k"), P: rapid.IntRange(0, 1<<16).Draw(t, "p")}
 				switch m.K {
-				case "flip", "set", "head", "len", "ins", "idx", "tag", "cmap":
+				case "flip", "set", "head", "len", "ins", "idx", "tag", "cmap", "widen":
 					m.V = rapid.IntRange(0, 255).Draw(t, "v")
 				}
 				switch m.K {
